@@ -94,8 +94,11 @@ def run_history(req):
         born.append((cname, "module", id(c)))
         stats["inserted_by_glue"] += 1
 
+    keepalive = []   # (the model identifies module objects by id(): none of them may be freed, and its id reused, meanwhile)
+
     def new_module(name, kind):
         m = make_module(name, kind, log, on_import)
+        keepalive.append(m)
         if kind in ("mod", "both", "raise", "importer", "bothraise", "bothpresent"):
             unrun_mod.add(id(m))
         return m
